@@ -5,7 +5,7 @@ import re
 from ..srcmodel import AnalysisError, Unknown, Regex, FuncRef, unparse
 from .. import pipeline as P
 from .. import facts as F
-from ..microeval import run_function
+from ..microeval import run_function, eval_term
 from ..relang import Algebra, Unsupported
 from .common_trie import _enclosing_tests
 
@@ -71,55 +71,98 @@ def _arms(t):
 
 
 def branch_templates(ctx, rule):
-    ctx.rule(rule, "branch templates: ensure_protocol and force_protocol normalise the protocol with rstrip(':/'), decide 'has a protocol' with the same test `PROTOCOL_RE.match(url)`, share the arms 'no protocol -> p://url' and 'leading // -> p:url'; force_protocol's last arm substitutes the anchored match by p://; strip_protocol substitutes it by the empty string")
+    ctx.rule(rule, "branch templates: ensure_protocol / force_protocol decide with the two tests `PROTOCOL_RE.match(url)` and `url starts with '//'` only (any other test on the url is reported); under each feasible outcome of the two tests the result, read off the value-numbered term and evaluated on marker values for the three spellings of the protocol argument, is p://url (no protocol), p:url (protocol-relative), url / PROTOCOL_RE.sub(p://, url) (has a protocol); the url is only ever passed along whole; strip_protocol substitutes the anchored match by the empty string")
     repo = ctx.repo
     ex = P.Extractor(repo, atomic=set())
-    terms = {}
+    url = ("param", "url")
+    rx = repo.const(repo.mod("patterns"), "PROTOCOL_RE")
+    import re as _re
+    crx = _re.compile(rx.pattern, rx.flags)
+
+    def is_M(c):
+        op = F.regex_op(c)
+        return op is not None and op[0] == PROTO and op[1] == "match" and op[2] == (url,)
+
+    def is_R(c):
+        if c[0] == "method" and c[1] == "startswith" and c[2] == url and c[3] == (("const", "//"),):
+            return True
+        return c[0] == "cmp" and c[1] == "Eq" and c[3] == ("const", "//") and c[2][0] == "slice" and c[2][1] == url and c[2][2] in (("const", None), ("const", 0)) and c[2][3] == ("const", 2)
+
+    def whole(parent, leaf):
+        if parent[0] == "binop" and parent[1] in ("Add", "Mod"):
+            return True
+        if parent[0] in ("fstring", "tuple"):
+            return True
+        if parent[0] == "method" and parent[1] == "format":
+            return True
+        op = F.regex_op(parent)
+        return op is not None and op[0] == PROTO and op[1] == "sub" and len(op[2]) >= 2 and op[2][1] == leaf
+
+    def leaf_for(u, proto):
+        def leaf(t):
+            if t == url:
+                return u
+            if t == ("param", "protocol"):
+                return proto
+            op = F.regex_op(t)
+            if op is not None and op[0] == PROTO and op[1] == "sub" and len(op[2]) >= 2:
+                kw = dict(t[3]) if t[0] in ("call",) else {}
+                count = 0
+                if len(op[2]) > 2:
+                    count = eval_term(op[2][2], leaf)
+                elif "count" in kw:
+                    count = eval_term(kw["count"], leaf)
+                return crx.sub(eval_term(op[2][0], leaf), eval_term(op[2][1], leaf), count=count)
+            raise Unknown("leaf %s" % P.show(t, maxdepth=2))
+        return leaf
+
+    CLASSES = (
+        ("no-protocol", False, False, "a.com/x?u=q://r"),
+        ("protocol-relative", True, True, "//a.com/x"),
+        ("has-protocol", True, False, "ftp://a.com/x"),
+    )
+    EXPECT = {
+        "ensure_protocol": {"no-protocol": "p://a.com/x?u=q://r", "protocol-relative": "p://a.com/x", "has-protocol": "ftp://a.com/x"},
+        "force_protocol": {"no-protocol": "p://a.com/x?u=q://r", "protocol-relative": "p://a.com/x", "has-protocol": "p://a.com/x"},
+        "strip_protocol": {"no-protocol": "a.com/x?u=q://r", "protocol-relative": "a.com/x", "has-protocol": "a.com/x"},
+    }
+    n = 0
     for name in ("ensure_protocol", "force_protocol", "strip_protocol"):
         mod = repo.mod(name)
         ref = mod.func(name)
         ctx.fn(ref.qualname)
-        terms[name] = (mod, ref, ex.result_term(ex.function(ref)))
-    pnorm = ("method", "rstrip", ("param", "protocol"), (("const", ":/"),), ())
-    url = ("param", "url")
-    arm1 = ("binop", "Add", ("binop", "Add", pnorm, ("const", "://")), url)
-    arm2 = ("binop", "Add", ("binop", "Add", pnorm, ("const", ":")), url)
-
-    def is_match(c):
-        # not PROTOCOL_RE.match(url)  /  not re.match(PROTOCOL_RE, url)
-        if c[0] != "not":
-            return False
-        m = c[1]
-        if m[0] == "call" and m[1] == PROTO + ".match" and m[2] == (url,):
-            return True
-        if m[0] == "call" and m[1] == "re.match" and m[2] == (("global", PROTO), url):
-            return True
-        return False
-
-    for name in ("ensure_protocol", "force_protocol"):
-        mod, ref, t = terms[name]
         site = mod.site(ref.node)
-        arms = _arms(t)
-        ctx.ob(rule, name + "/three-way-branch", len(arms) == 3, "%s is not the three-way branch (no protocol / protocol-relative / other): %s" % (name, P.show(t, maxdepth=3)), site)
-        if len(arms) != 3:
-            continue
-        (c1, a1), (c2, a2), (c3, a3) = arms
-        ctx.ob(rule, name + "/has-protocol-test", is_match(c1),
-               "%s decides whether the url has a protocol with `%s` instead of the shared `not PROTOCOL_RE.match(url)`: it disagrees with its siblings on urls such as 'lemonde.fr/login?next=https://abo.lemonde.fr/'" % (name, P.show(c1, maxdepth=4)),
+        t = ex.result_term(ex.function(ref))
+        atoms = F.atomic_conditions(t)
+        foreign = [c for c in atoms if not is_M(c) and not is_R(c)]
+        if name == "strip_protocol":
+            foreign = atoms
+        ctx.ob(rule, name + "/has-protocol-test", not foreign,
+               "%s decides with `%s` instead of the shared tests `PROTOCOL_RE.match(url)` / `url.startswith('//')`: it disagrees with its siblings on urls such as 'lemonde.fr/login?next=https://abo.lemonde.fr/' or 'HTTP://a.com'" % (name, "`, `".join(P.show(c, maxdepth=4) for c in foreign)),
                site, witness="lemonde.fr/login?next=https://abo.lemonde.fr/")
-        ctx.ob(rule, name + "/no-protocol-arm", a1 == arm1, "%s's no-protocol arm is %s, expected protocol.rstrip(':/') + '://' + url" % (name, P.show(a1, maxdepth=5)), site, witness="a.com")
-        rel = (c2[0] == "method" and c2[1] == "startswith" and c2[2] == url and c2[3] == (("const", "//"),)) or (c2[0] == "cmp" and c2[1] == "Eq" and c2[3] == ("const", "//") and c2[2][0] == "slice" and c2[2][1] == url and c2[2][3] == ("const", 2))
-        ctx.ob(rule, name + "/protocol-relative-test", rel, "%s's second test is %s, expected url.startswith('//')" % (name, P.show(c2, maxdepth=4)), site, witness="//a.com")
-        ctx.ob(rule, name + "/protocol-relative-arm", a2 == arm2, "%s's protocol-relative arm is %s, expected protocol.rstrip(':/') + ':' + url" % (name, P.show(a2, maxdepth=5)), site, witness="//a.com")
-        if name == "ensure_protocol":
-            ctx.ob(rule, name + "/otherwise-unchanged", a3 == url, "ensure_protocol changes a url that already has a protocol: %s" % P.show(a3, maxdepth=4), site, witness="ftp://a.com")
-        else:
-            repl = ("binop", "Add", pnorm, ("const", "://"))
-            ok = (a3[0] == "call" and a3[1] == "re.sub" and a3[2][:3] == (("global", PROTO), repl, url) and len(a3[2]) == 3) or (a3[0] == "call" and a3[1] == PROTO + ".sub" and a3[2] == (repl, url))
-            ctx.ob(rule, name + "/replace-arm", ok, "force_protocol's last arm is %s, expected PROTOCOL_RE.sub(protocol + '://', url)" % P.show(a3, maxdepth=5), site, witness="ftp://a.com")
-    mod, ref, t = terms["strip_protocol"]
-    ok = (t[0] == "call" and t[1] == PROTO + ".sub" and t[2] == (("const", ""), url)) or (t[0] == "call" and t[1] == "re.sub" and t[2] == (("global", PROTO), ("const", ""), url))
-    ctx.ob(rule, "strip_protocol/substitutes-empty", ok, "strip_protocol is %s, expected PROTOCOL_RE.sub('', url)" % P.show(t, maxdepth=4), mod.site(ref.node), witness="http://a.com")
+        if name != "strip_protocol":
+            ctx.ob(rule, name + "/tests-the-shared-pattern", any(is_M(c) for c in atoms), "%s never tests PROTOCOL_RE.match(url)" % name, site)
+        if foreign:
+            n += 9 if name != "strip_protocol" else 3
+            continue
+        for cname, m, r, rep in CLASSES:
+            val = lambda c, m=m, r=r: m if is_M(c) else (r if is_R(c) else None)
+            arm = F.resolve_under(t, val)
+            bad = F.opaque_uses(arm, url, whole)
+            ctx.ob(rule, "%s/%s/url-passed-whole" % (name, cname), not bad,
+                   "%s cuts or inspects the url (%s) instead of passing it along whole" % (name, "; ".join(P.show(b, maxdepth=3) for b in bad[:2])), site)
+            for proto in (("p", "p:", "p://") if name != "strip_protocol" else ("p",)):
+                n += 1
+                try:
+                    got = eval_term(arm, leaf_for(rep, proto))
+                except Unknown as e:
+                    ctx.undecided(rule, "%s on a %s url: %s" % (name, cname, e))
+                    continue
+                exp = EXPECT[name][cname]
+                ctx.ob(rule, "%s/%s/protocol=%s" % (name, cname, proto), got == exp,
+                       "%s(%r%s) gives %r, expected %r" % (name, rep, "" if name == "strip_protocol" else ", %r" % proto, got, exp), site,
+                       witness=rep, sample="%s(%r, %r) -> %r" % (name, rep, proto, got))
+    ctx.require_instances(rule, n, 21, "(helper, url class, protocol spelling) cells")
 
 
 def builder(ctx, rule):
